@@ -1,8 +1,156 @@
 import Genshi.Wire
+import Genshi.Model.Match
+import Genshi.Model.MatchPath
+import Genshi.Model.MatchLazy
+import Genshi.Model.MatchSpec
 namespace Driver.C12
-open Genshi
+open Genshi Genshi.Match Genshi.Sexp
 
-/-- stub: the model driver for C12 is not built yet -/
-def handle : List Sexp → Option Sexp := fun _ => none
+/-
+  C12 run <fuel> ( item … )
+     item := ( S name ) | ( E name ) | ( T text )
+           | ( REG spec ( bitem … ) buffer once recursive )     the three attribute values, N = absent
+     spec := ( one name|N pos|N ) | ( chain ( ( name … ) … ) ) | ( generic ( ( child|desc|dos ( name n )|any|node ) … ) )
+     bitem := ( S name ) | ( E name ) | ( T text ) | ( SEL dot|node|elems|text|nodeText ) | ( SEL named name )
+  C12 lazy <fuel> ( item … )     the same through the automaton model (covers buffer="false")
+  C12 tree ( item … )             the specification: one tree rewrite per template (Model/MatchSpec.lean)
+  answer: ( ok ( event … ) ( hits per registered template … ) ) | unmodelled | ( err fuel )
+-/
+
+def ev? : Sexp → Option Event
+  | .list [.atom "S", .str n] => some (.start ⟨[], n⟩ [])
+  | .list [.atom "E", .str n] => some (.end_ ⟨[], n⟩)
+  | .list [.atom "T", .str s] => some (.text s false)
+  | _ => none
+
+def evOut : Event → Sexp
+  | .start t _ => .list [.atom "S", .str t.loc]
+  | .end_ t => .list [.atom "E", .str t.loc]
+  | .text s _ => .list [.atom "T", .str s]
+  | _ => .atom "other"
+
+def sel? : List Sexp → Option Sel
+  | [.atom "dot"] => some .self
+  | [.atom "node"] => some .node
+  | [.atom "elems"] => some .elems
+  | [.atom "text"] => some .text
+  | [.atom "nodeText"] => some .nodeText
+  | [.atom "named", .str n] => some (.named n)
+  | _ => none
+
+def bitem? : Sexp → Option BItem
+  | .list (.atom "SEL" :: r) => (sel? r).map .sel
+  | x => (ev? x).map .ev
+
+def optNat? : Sexp → Option (Option Nat)
+  | .atom "N" => some none
+  | x => x.toNat?.map some
+
+def optName? : Sexp → Option (Option Str)
+  | .atom "N" => some none
+  | .str s => some (some s)
+  | _ => none
+
+def spec? : Sexp → Option PathSpec
+  | .list [.atom "one", n, p] => do
+      let n ← optName? n; let p ← optNat? p; pure (.single n p)
+  | .list [.atom "generic", .list sts] => do
+      let sts ← sts.mapM fun
+        | .list [ax, t] => do
+            let ax ← match ax with
+              | .atom "child" => some GAxis.child
+              | .atom "desc" => some GAxis.desc
+              | .atom "dos" => some GAxis.dos
+              | _ => none
+            let t ← match t with
+              | .list [.atom "name", .str n] => some (GTest.name n)
+              | .atom "any" => some GTest.any
+              | .atom "node" => some GTest.node
+              | _ => none
+            pure (ax, t)
+        | _ => none
+      pure (.generic sts)
+  | .list [.atom "chain", .list fs] => do
+      let fs ← fs.mapM fun
+        | .list ns => ns.mapM Sexp.toStr?
+        | _ => none
+      pure (.simple fs)
+  | _ => none
+
+def item? : Sexp → Option (Item PSt)
+  | .list [.atom "REG", spec, .list body, b, o, r] => do
+      let spec ← spec? spec
+      let body ← body.mapM bitem?
+      let b ← optName? b; let o ← optName? o; let r ← optName? r
+      pure (.reg (mkMT spec body (parseHints b o r)))
+  | x => (ev? x).map .ev
+
+def allBuffered : List (Item PSt) → Bool
+  | [] => true
+  | .reg t :: r => t.buffered && allBuffered r
+  | _ :: r => allBuffered r
+
+/-- events of a well-nested stream as a forest (driver only) -/
+partial def toForest : List Event → List Node → List (QName × AttrList × List Node) → Option (List Node)
+  | [], acc, [] => some acc.reverse
+  | [], _, _ => none
+  | .start t a :: es, acc, stk => toForest es [] ((t, a, acc) :: stk)
+  | .end_ t :: es, acc, (t', a, up) :: stk =>
+      if t = t' then toForest es (Node.elem t a acc.reverse :: up) stk else none
+  | .end_ _ :: _, _, [] => none
+  | e :: es, acc, stk => toForest es (Node.leaf e :: acc) stk
+
+def splitDecls : List (Item PSt) → List (MT PSt) × List (Item PSt)
+  | .reg t :: r => let q := splitDecls r; (t :: q.1, q.2)
+  | r => ([], r)
+
+def itemEvents : List (Item PSt) → Option (List Event)
+  | [] => some []
+  | .ev e :: r => (itemEvents r).map (e :: ·)
+  | .reg _ :: _ => none
+
+def stages : List (MT PSt) → List Event → Option (List Event)
+  | [], es => some es
+  | t :: ts, es => do
+      let forest ← toForest es [] []
+      stages ts (specList t t.st [] forest)
+
+def specAnswer (items : List (Item PSt)) : Sexp :=
+  match items with
+  | .ev (.start root ra) :: rest =>
+    let (decls, content) := splitDecls rest
+    match itemEvents content with
+    | none => .atom "unmodelled"      -- a declaration after content
+    | some evs =>
+      match evs.reverse with
+      | .end_ root' :: revc =>
+        if root' != root || decls.any (fun t => t.once) then .atom "unmodelled" else
+        match stages decls revc.reverse with
+        | some out => .list [.atom "ok", .list ((Event.start root ra :: out ++ [Event.end_ root]).map evOut), .list []]
+        | none => .atom "unmodelled"
+      | _ => .atom "unmodelled"
+  | _ => .atom "unmodelled"
+
+def handle : List Sexp → Option Sexp
+  | [.atom "run", fuel, .list items] => do
+      let fuel ← fuel.toNat?
+      let items ← items.mapM item?
+      if !allBuffered items then pure (.atom "unmodelled") else
+      match run fuel 0 none items [] with
+      | some (mts, out) => pure (.list [.atom "ok", .list (out.map evOut), .list (mts.map fun t => ofNat t.hits)])
+      | none => pure (.list [.atom "err", .atom "fuel"])
+  | [.atom "lazy", fuel, .list items] => do
+      -- the automaton model: every hint, buffered or not
+      let fuel ← fuel.toNat?
+      let items ← items.mapM item?
+      match runL fuel .idle items [] with
+      | some (_, mts, out) => pure (.list [.atom "ok", .list (out.map evOut), .list (mts.map fun t => ofNat t.hits)])
+      | none => pure (.list [.atom "err", .atom "fuel"])
+  | [.atom "tree", .list items] => do
+      -- the specification: one tree rewrite per template, in declaration order (declarations first,
+      -- no once, lawful matchers); answers `unmodelled` otherwise
+      let items ← items.mapM item?
+      pure (specAnswer items)
+  | _ => none
 
 end Driver.C12
